@@ -236,6 +236,60 @@ def run(ctx, config='rel-all'):
             else:
                 ctx.violation('O5', fn, 'strategy', '%s reaches the raw buffer with strategy %s, expected %s (growth through this entry point would %s)' % (fn, sorted(strat) or 'none', want, 'not be geometric' if want == 'Amortized' else 'over-allocate'), bs[0].get('span'))
         ctx.floor('O5', n5, 14, 'growing entry points of Vec / String checked for their growth strategy')
+    # ---- O7 a new chunk is requested only after the current chunk refused the request: the chunk-acquiring slow path is
+    # called from one place, under the None fact of the bumping function for the same layout.  (Going to the slow path
+    # directly obtains a doubled chunk per call although the current one has room: linear chunk count, unbounded overhead.)
+    slow = [b for b in db.fn_bodies() if b['kind'] == 'assoc_fn' and b['meta'].get('impl_adt') == 'Bump' and b['meta'].get('name') == 'alloc_layout_slow']
+    if not slow:
+        ctx.anchor_missing('O7', 'Bump::alloc_layout_slow')
+    else:
+        callers = db.callers_of(slow[0]['meta']['path']) + [c for c in db.callers_of(slow[0]['id']) if c not in db.callers_of(slow[0]['meta']['path'])]
+        seen = set()
+        n7 = 0
+        for cb, bi, t in callers:
+            if (cb['id'], bi) in seen:
+                continue
+            seen.add((cb['id'], bi))
+            n7 += 1
+            J, r = arena.run_fn(ctx, cb['id'], config)
+            ce = [e for e in r.events if e.kind == 'call' and len(e.stack) == 1 and e.block == bi]
+            fn = arena.short(cb['id'])
+            okv = False
+            if ce:
+                L = ce[0].args[1] if len(ce[0].args) > 1 else None
+                for f in ce[0].state.facts:
+                    if f[0] == 'is' and f[2] == 'None':
+                        # the value known to be None is the result of the bumping function for the same layout
+                        for c2 in r.events:
+                            if c2.kind == 'call' and len(c2.stack) == 1 and c2.ret is not None and (c2.callee or '').endswith('::try_alloc_layout_fast') and len(c2.args) > 1 and c2.args[1] == L:
+                                if f[1] == c2.ret or c2.ret in subterms(f[1]) or f[1] in subterms(c2.ret):
+                                    okv = True
+            if okv:
+                ctx.ok('O7', '%s calls the chunk-acquiring slow path only after try_alloc_layout_fast returned None for the same layout' % fn, 'must-fact at the call')
+            else:
+                ctx.violation('O7', fn, 'slow-path-unguarded', '%s calls alloc_layout_slow on a path where the current chunk was not tried (no None result of try_alloc_layout_fast for the same layout is known): a new chunk is requested although the request may fit' % fn, t.get('span'))
+        ctx.floor('O7', n7, 1, 'call sites of the chunk-acquiring slow path')
+    # ---- O8 a collection with spare capacity does not move: every growing primitive reserves exactly the number of elements
+    # it is about to add (reserving more makes an insertion that fits reallocate)
+    if config != 'rel-default':
+        P1, P2, P3 = ('param', 1), ('param', 2), ('param', 3)
+        WANT = [('vec::Vec', 'push', C(1)), ('vec::Vec', 'insert', C(1)), ('vec::Vec', 'append_elements', app('len', P2)), ('vec::Vec', 'extend_from_slice_copy', app('len', P2)),
+                ('vec::Vec', 'extend_with', P2), ('string::String', 'insert_bytes', app('len', P3))]
+        n8 = 0
+        for adt, name, want in WANT:
+            bs = [x for x in db.fn_bodies() if x['kind'] == 'assoc_fn' and x['meta'].get('name') == name and (x['meta'].get('impl_adt') or '').endswith(adt) and not x['meta'].get('impl_trait')]
+            if not bs:
+                ctx.anchor_missing('O8', '%s::%s' % (adt, name))
+                continue
+            J, r = arena.run_fn(ctx, bs[0]['id'], config)
+            rs = [e for e in r.events if e.kind == 'call' and len(e.stack) == 1 and (e.callee or '').endswith('::reserve')]
+            n8 += 1
+            fn = '%s::%s' % (adt.split('::')[-1], name)
+            if len(rs) == 1 and rs[0].args[-1] == want:
+                ctx.ok('O8', '%s reserves exactly %s additional elements' % (fn, show(want)), 'argument term of the reserve call')
+            else:
+                ctx.violation('O8', fn, 'reserve-amount', '%s must reserve exactly %s additional elements; it reserves %s' % (fn, show(want), [show(e.args[-1])[:60] for e in rs]), bs[0].get('span'))
+        ctx.floor('O8', n8, 6, 'growing primitives checked for their reserve amount')
     # ---- R5 capacities
     if config != 'rel-default':
         for path, nav in (("collections::raw_vec::RawVec::<'a, T>::with_capacity_in", ()), ("collections::vec::Vec::<'bump, T>::with_capacity_in", ('buf',)), ("collections::string::String::<'bump>::with_capacity_in", ('vec', 'buf'))):
